@@ -1,23 +1,42 @@
 #!/usr/bin/env python3
-"""Prints the rows of DESIGN.md 11.2 from the evidence files (numbers of the last run of each check)."""
+"""DESIGN.md 11.2 from the evidence files (numbers of the last run of each check).
+usage: table_112.py           print the rows
+       table_112.py --write   rewrite the rows of the table in DESIGN.md (column 2 is kept)"""
 import json
 import os
+import re
 import sys
 
 VERIF = os.path.dirname(os.path.dirname(os.path.abspath(__file__)))
-for i in range(1, 20):
-    pid = "C%02d" % i
-    p = os.path.join(VERIF, "evidence", pid + ".json")
-    if not os.path.exists(p):
-        print("| %s | (no evidence) |" % pid)
-        continue
-    e = json.load(open(p))
-    cov = e.get("coverage") or e.get("cov") or {}
-    flat = json.dumps(e)
-    def g(k):
-        v = cov.get(k)
-        if v is None and isinstance(e.get("metrics"), dict):
-            v = e["metrics"].get(k)
-        return v
-    print("| %s | tier=%s | states=%s | traces=%s | nontrivial=%s | wall=%s |" % (
-        pid, e.get("tier"), g("states"), g("traces_validated_against_impl"), g("distinct_nontrivial"), e.get("wall_s") or g("wall_s")))
+EXTRA = ("crash_points_executed", "schedules_executed", "fs_traces_validated_by_tlc", "recorded_traces_validated_by_tlc",
+         "recorded_two_handle_traces_validated_by_tlc", "protocol_traces_judged_by_tlc", "observations_judged_by_tlc",
+         "recorded_observations_judged_by_tlc", "reference_run_evaluations_agreeing", "corpus_evaluations",
+         "store_contract_behaviours_on_dbfs", "end_to_end_keeps", "parameter_lists", "enumerated_values")
+
+
+def row(pid: str, mods: str) -> str:
+    e = json.load(open(os.path.join(VERIF, "evidence", pid + ".json")))
+    c = e["coverage"]
+    extra = ["%s=%s" % (k.replace("_", " "), c[k]) for k in EXTRA if k in c]
+    return "| %s | %s | %s states, %s transitions | %s behaviours / histories replayed or validated (%s non-trivial)%s | %d s |" % (
+        pid, mods, c.get("states"), c.get("transitions"), c.get("traces_validated_against_impl"), c.get("distinct_nontrivial"),
+        ("; " + ", ".join(extra)) if extra else "", round(e["wall_s"]))
+
+
+def main() -> None:
+    p = os.path.join(VERIF, "DESIGN.md")
+    s = open(p).read()
+    a = s.index("### 11.2 Per property")
+    b = s.index("(measured on this sandbox")
+    out = []
+    for ln in s[a:b].split("\n"):
+        m = re.match(r"\| (C\d\d) \| ([^|]*) \|", ln)
+        out.append(row(m.group(1), m.group(2).strip()) if m else ln)
+        if m and "--write" not in sys.argv:
+            print(out[-1])
+    if "--write" in sys.argv:
+        open(p, "w").write(s[:a] + "\n".join(out) + s[b:])
+
+
+if __name__ == "__main__":
+    main()
